@@ -719,7 +719,24 @@ func nonsenseCatalogue(c *core.Ctx) {
 		keyItem.flags = append(keyItem.flags, []string{"--key", k})
 		keyItem.cmds = append(keyItem.cmds, []string{"info", "key", "describe", "--key", k}, []string{"info", "key", "conv", "--key", k, "-c", "d"}, []string{"text", "conv", "syllable", "--key", k})
 	}
-	items = append(items, keyItem)
+	// the same spellings right after their valid enharmonic twin (G# after Ab, Fb after E, A#m after Bbm ...): what
+	// is in force before must not make a key acceptable that has no scale
+	twinItem := nonsense{name: "key without a scale after its enharmonic twin"}
+	for _, k := range noScale {
+		kk, _ := theory.ParseKey(k)
+		for _, o := range theory.Supported() {
+			if o.Minor != kk.Minor || (o.TonicOffset()-kk.TonicOffset())%12 != 0 {
+				continue
+			}
+			tw := o.String()
+			twinItem.text = append(twinItem.text, o.Tonic.String()+"[1]{key="+tw+"} "+o.Tonic.String()+"[1]{key="+k+"}", "R[1]{key="+tw+"} R[1]{key="+k+"} C[1]")
+			twinItem.yaml = append(twinItem.yaml,
+				"- chord: {degree: \"1\", name: \"\"}\n  values: [\"1\"]\n  key: "+jq(tw)+"\n- chord: {degree: \"5\", name: \"7\"}\n  values: [1]\n  key: "+jq(k)+"\n",
+				"- values: [1]\n  key: "+jq(tw)+"\n- values: [1]\n  key: "+jq(k)+"\n- chord: {degree: \"1\", name: \"\"}\n  values: [1]\n")
+			twinItem.cmds = append(twinItem.cmds, []string{"write", "--key", tw, "KEYDOC:" + k}, []string{"write", "event", "-k", tw, "KEYDOC:" + k}, []string{"text", "conv", "syllable", "--key", tw, "KEYTEXT:" + k})
+		}
+	}
+	items = append(items, keyItem, twinItem)
 
 	validDoc := []byte(chordY(""))
 	type ncase struct {
@@ -856,6 +873,14 @@ func nonsenseCatalogue(c *core.Ctx) {
 			stdin := validDoc
 			if nc.argv[0] == "text" {
 				stdin = []byte("C[1]")
+			}
+			// a trailing KEYDOC:K / KEYTEXT:K stands for "the second instance states key K"
+			if last := nc.argv[len(nc.argv)-1]; strings.HasPrefix(last, "KEYDOC:") {
+				stdin = []byte(chordY("- values: [1]\n  key: " + jq(strings.TrimPrefix(last, "KEYDOC:")) + "\n"))
+				nc.argv = nc.argv[:len(nc.argv)-1]
+			} else if strings.HasPrefix(last, "KEYTEXT:") {
+				stdin = []byte("C[1] R[1]{key=" + strings.TrimPrefix(last, "KEYTEXT:") + "} C[1]")
+				nc.argv = nc.argv[:len(nc.argv)-1]
 			}
 			res := c.Crd.Run(runner.Opt{Stdin: stdin}, nc.argv...)
 			if !judgeOutcome(c, "nonsense", i, strings.Join(nc.argv[:min(3, len(nc.argv))], " "), res, det) {
